@@ -22,7 +22,7 @@ package controller
 
 //@ func (*DefaultFanController).getPwm
 //@   requires fans.fanWF(f.fan)
-//@   modifies f.fan.(*fans.HwMonFan).Pwm, f.fan.(*fans.FileFan).Pwm, f.fan.(*fans.CmdFan).Pwm, procWorld, started
+//@   modifies f.fan.(*fans.HwMonFan).Pwm, f.fan.(*fans.FileFan).Pwm, f.fan.(*fans.CmdFan).Pwm, procWorld, started, lastReadFailed
 
 //@ func (*DefaultFanController).setPwm
 //@   props C12
@@ -31,7 +31,7 @@ package controller
 //@   ensures[last] f.lastSetPwm != nil && *f.lastSetPwm == target
 //@   ensures[C12.others C01 C05] forall o int :: o != ref(f.fan) ==> pwmWrites[o] == old(pwmWrites)[o] && lastPwm[o] == old(lastPwm)[o]
 //@   ensures[C12.once C01 C05] pwmWrites[f.fan] == old(pwmWrites)[f.fan] || (pwmWrites[f.fan] == old(pwmWrites)[f.fan] + 1 && exists s :: nearestIn(distinct(f), s, target) && lastPwm[f.fan] == f.pwmMap[s])
-//@   modifies f.lastSetPwm, pwmWrites, lastPwm, fileInt, procWorld, started, f.fan.(*fans.HwMonFan).Pwm, f.fan.(*fans.FileFan).Pwm, f.fan.(*fans.CmdFan).Pwm
+//@   modifies f.lastSetPwm, pwmWrites, lastPwm, fileInt, procWorld, started, lastReadFailed, f.fan.(*fans.HwMonFan).Pwm, f.fan.(*fans.FileFan).Pwm, f.fan.(*fans.CmdFan).Pwm
 
 //@ func (*DefaultFanController).updateDistinctPwmValues
 //@   props C12
@@ -59,7 +59,7 @@ package controller
 //@   props C05
 //@   requires fans.fanWF(f.fan) && (f.pwmMap != nil ==> mapInv(f)) && (f.lastSetPwm != nil ==> util.inInt32(*f.lastSetPwm))
 //@   ensures f.stats.UnexpectedPwmValueCount >= old(f.stats.UnexpectedPwmValueCount)
-//@   modifies f.stats.UnexpectedPwmValueCount, f.fan.(*fans.HwMonFan).Pwm, f.fan.(*fans.FileFan).Pwm, f.fan.(*fans.CmdFan).Pwm, procWorld, started
+//@   modifies f.stats.UnexpectedPwmValueCount, f.fan.(*fans.HwMonFan).Pwm, f.fan.(*fans.FileFan).Pwm, f.fan.(*fans.CmdFan).Pwm, procWorld, started, lastReadFailed
 
 //@ func (*DefaultFanController).calculateTargetPwm
 //@   props C01 C02 C10
@@ -80,13 +80,13 @@ package controller
 //@   modifies f.fan.(*fans.FileFan).Rpm, f.fan.(*fans.FileFan).Pwm, f.fan.(*fans.CmdFan).Rpm, f.fan.(*fans.CmdFan).Pwm
 //@   modifies f.controlLoop.(*control_loop.DirectControlLoop).lastTime
 //@   modifies each(*curves.LinearSpeedCurve).Value, each(*curves.FunctionSpeedCurve).Value, each(*curves.PidSpeedCurve).Value
-//@   modifies each(*util.PidLoop).integral, each(*util.PidLoop).error, each(*util.PidLoop).lastTime, procWorld, started
+//@   modifies each(*util.PidLoop).integral, each(*util.PidLoop).error, each(*util.PidLoop).lastTime, procWorld, started, lastReadFailed
 
 //@ func trySetManualPwm
 //@   props C05
 //@   requires fans.fanWF(fan)
 //@   ensures[C05.nopwm C01] pwmWrites == old(pwmWrites)
-//@   modifies modeWrites, lastMode, fileInt
+//@   modifies modeWrites, lastMode, fileInt, lastReadFailed
 
 //@ func (*DefaultFanController).UpdateFanSpeed
 //@   props C01 C02 C05
@@ -104,4 +104,4 @@ package controller
 //@   modifies f.fan.(*fans.FileFan).Rpm, f.fan.(*fans.FileFan).Pwm, f.fan.(*fans.CmdFan).Rpm, f.fan.(*fans.CmdFan).Pwm
 //@   modifies f.controlLoop.(*control_loop.DirectControlLoop).lastTime
 //@   modifies each(*curves.LinearSpeedCurve).Value, each(*curves.FunctionSpeedCurve).Value, each(*curves.PidSpeedCurve).Value
-//@   modifies each(*util.PidLoop).integral, each(*util.PidLoop).error, each(*util.PidLoop).lastTime, procWorld, started
+//@   modifies each(*util.PidLoop).integral, each(*util.PidLoop).error, each(*util.PidLoop).lastTime, procWorld, started, lastReadFailed
